@@ -5,7 +5,10 @@
 // numEndpointsEjected and the per-endpoint ejection state and to count RPC results with
 // the real incrementCounter.
 //
-// cfg  [K]   endpoints are 0..K-1 (address "a<id>")
+// cfg  [K] or [K, sym]   endpoints are 0..K-1 (address "a<id>"); sym = 1 marks a case whose
+//      last interval has several simultaneous outliers while max_ejection_percent binds (the
+//      outcome depends on Go's map order): the model is then compared on the first three
+//      numbers of each observation only, the per-endpoint records are judged by the clauses
 //
 // ops
 //
@@ -138,7 +141,7 @@ func vOutlierDecode(k int64, op []int64) (*LBConfig, []int64, bool) {
 }
 
 func vOutlierExecIn(cfg []int64, ops [][]int64) (obs [][]int64, nontrivial bool, tags []string) {
-	if len(cfg) != 1 || cfg[0] < 1 || cfg[0] > 64 {
+	if (len(cfg) != 1 && len(cfg) != 2) || cfg[0] < 1 || cfg[0] > 64 || (len(cfg) == 2 && cfg[1] != 0 && cfg[1] != 1) {
 		return nil, false, nil
 	}
 	k := cfg[0]
@@ -301,6 +304,10 @@ func vOutlierExecIn(cfg []int64, ops [][]int64) (obs [][]int64, nontrivial bool,
 	}
 	sort.Strings(tags)
 	nontrivial = tg["ejected"] && tg["unejected"]
+	if len(cfg) == 2 && cfg[1] == 1 {
+		nontrivial = tg["ejected"]
+		tags = append(tags, "sym")
+	}
 	return obs, nontrivial, tags
 }
 
@@ -391,6 +398,16 @@ func vOutlierGen(r *vRand, tier string, idx int) ([]int64, [][]int64) {
 			vOutlierCfgOp(1, 0, 0, 100, 0, 0, 0, 0, 0, 1, 0, 50, 0, 0, 0), {3}, {3},
 		}
 	}
+	if idx == 5 {
+		// two failure-percentage outliers in one interval, max_ejection_percent admits one
+		return []int64{5, 1}, [][]int64{
+			vOutlierCfgOp(10, 30, 300, 20, 0, 0, 0, 0, 0, 1, 50, 100, 5, 5, 0, 1, 2, 3, 4),
+			{2, 0, 0, 5}, {2, 1, 0, 5}, {2, 2, 1, 5}, {2, 3, 1, 5}, {2, 4, 1, 5}, {3},
+		}
+	}
+	if idx%4 == 2 {
+		return vOutlierSymGen(r)
+	}
 	k := int64(2 + r.Intn(5))
 	var ops [][]int64
 	cur := vOutlierRandCfg(r, k)
@@ -444,6 +461,57 @@ func vOutlierGen(r *vRand, tier string, idx int) ([]int64, [][]int64) {
 		}
 	}
 	return []int64{k}, ops
+}
+
+// vOutlierSymGen: one interval with several identical outliers among fresh endpoints and a
+// max_ejection_percent that may admit only some of them (order-dependent outcome, sym case).
+func vOutlierSymGen(r *vRand) ([]int64, [][]int64) {
+	k := int64(3 + r.Intn(6))
+	nbad := int64(2 + r.Intn(int(k-2)))
+	ids := make([]int64, k)
+	for i := range ids {
+		ids[i] = int64(i)
+	}
+	vol := r.PickI64(1, 5, 10, 20)
+	maxpct := r.PickI64(10, 20, 25, 34, 40, 50, 60, 75, 100)
+	var cfgop []int64
+	if r.Chance(70) {
+		cfgop = vOutlierCfgOp(r.PickI64(1, 5, 10), 30, 300, maxpct, 0, 0, 0, 0, 0,
+			1, r.PickI64(0, 50, 85), 100, r.PickI64(0, 1, k), r.PickI64(0, 1, vol), ids...)
+	} else {
+		f := r.PickI64(0, 500, 1900)
+		if (k-nbad)*1000000 == nbad*f*f {
+			f = 0
+		}
+		cfgop = vOutlierCfgOp(r.PickI64(1, 5, 10), 30, 300, maxpct, 1, f, 100, r.PickI64(0, 1, k), r.PickI64(1, vol),
+			0, 0, 0, 0, 0, ids...)
+	}
+	ops := [][]int64{cfgop}
+	// which endpoints fail: a random subset of size nbad
+	perm := append([]int64{}, ids...)
+	for i := len(perm) - 1; i > 0; i-- {
+		j := r.Intn(i + 1)
+		perm[i], perm[j] = perm[j], perm[i]
+	}
+	bad := map[int64]bool{}
+	for _, id := range perm[:nbad] {
+		bad[id] = true
+	}
+	for _, id := range ids {
+		if bad[id] {
+			ops = append(ops, []int64{2, id, 0, vol})
+		} else {
+			ops = append(ops, []int64{2, id, 1, vol})
+		}
+	}
+	if r.Chance(40) {
+		ops = append(ops, []int64{4, r.PickI64(0, 1, 3, 9)})
+	}
+	ops = append(ops, []int64{3})
+	if r.Chance(30) {
+		ops = append(ops, []int64{4, r.PickI64(0, 1, 3)})
+	}
+	return []int64{k, 1}, ops
 }
 
 func TestVerif_Outlier(t *testing.T) {
